@@ -16,6 +16,7 @@ open AwsVerif.Log AwsVerif.Gen.Log AwsVerif.Proofs.C14
 
 
 
+
 /-- **Line shape.**  When the buffer can hold the whole line and its terminator, the formatter
 succeeds, `amount_written` is the length of `prefix ++ message ++ "\n"`, those bytes are exactly that
 line (whatever the buffer held before), a NUL follows it inside the buffer, and with NUL-free inputs
@@ -114,6 +115,17 @@ theorem c14_writer_failure (p : Pipe) (c : Call) (line : Bytes) (hch : p.chan = 
     (pipelineLog p c).1.destroyed = p.destroyed ++ [line] ∧
     (pipelineLog p c).1.writeErrors = p.writeErrors + (if c.writeOk then 0 else 1) :=
   Thm.c14_writer_failure p c line hch hf
+
+/-- **Level names round-trip**: every level has a name, `aws_string_to_log_level` maps that name — in the table's
+spelling, in lower case, in any ASCII case mix — back to exactly that level (so the seven names are pairwise distinct
+ignoring case), and whatever it accepts is a level below AWS_LL_COUNT whose name equals the text ignoring case. -/
+theorem c14_level_names :
+    (∀ l, l < AWS_LL_COUNT → ∃ name, levelToString l = some name ∧ stringToLevel name = some l ∧
+        stringToLevel (name.map asciiLower) = some l) ∧
+    (∀ s a, a.map asciiLower = s.map asciiLower → stringToLevel a = stringToLevel s) ∧
+    (∀ s l, stringToLevel s = some l → l < AWS_LL_COUNT ∧ ∃ name, levelToString l = some name ∧ eqIgnoreCase s name = true) ∧
+    (∀ l, ¬ l < AWS_LL_COUNT → levelToString l = none) :=
+  Thm.c14_level_names 
 
 /-! ## Log subjects -/
 
